@@ -438,6 +438,14 @@ def k13_citations(ctx, pid: str):
     def lib_hook(fr, dotted, args, kwargs, node):
         if dotted == "builtins.enumerate":
             src = args[0]
+            lazy = getattr(src, "_lazy", None)
+            if lazy and "citation" in repr(lazy[0]):
+                # the citation list walked in step with something mapped from it: zip(citations, map(rx.match, citations))
+                from .absint import subst_value
+                img = subst_value(lazy[2], lazy[1], CIT)
+                return ACollection("citations", lambda: (Aff.sym("idx"), img))
+            if "citation" not in repr(src):
+                return NotImplemented
             return ACollection("citations", lambda: (Aff.sym("idx"), CIT))
         return NotImplemented
 
@@ -489,6 +497,12 @@ def k13_citations(ctx, pid: str):
         out = []
         if o.kind != "return":
             return [("K13.writer", name, False, "re-referencing ends with %r" % (o,))]
+        opaque = [t for t, v in o.path.choices if t.startswith("next-of ") and ("references" in t)]
+        if opaque:
+            # a hand-written search of the reference list: neither `in` / .index / .count nor a loop the evaluator
+            # follows -- what it computes is not decided here (an unrecognised condition is not a wrong one)
+            raise AnalysisError("%s: the reference list is searched with next() over a filtered generator (%s); this form of "
+                                "membership / position search is not modelled" % (ref.where(), opaque[0][:120]))
         stores = [e for e in o.path.effects if e[0] == "setitem"]
         appends = [e for e in o.path.effects if e[0] == "mutate" and e[2] == "append"]
         absent = any(t.startswith("bool not(in(") and v for t, v in o.path.choices) or any(
